@@ -39,6 +39,8 @@ type c02Machine struct {
 	flags     map[string]bool
 	aliasable bool
 	curN      int // batch size of the last call
+	noisy     func(output string) bool // is this output downstream of an alignment-sensitive float kernel?
+	depth     int
 }
 
 func snapTensors(ts gonnx.Tensors) map[string]snapshot {
@@ -66,7 +68,7 @@ func newC02Machine(rt *rapid.T, desc string, b []byte, mk func(rt *rapid.T, n in
 		rt.Fatalf("C02: model does not load: %v %v (%s)", lr.err, lr.panicVal, desc)
 	}
 	return &c02Machine{desc: desc, bytes: b, m: lr.m, params: snapTensors(gonnx.VerifParameters(lr.m)), mkFeed: mk,
-		canBatch: canBatch, baseN: baseN, flags: map[string]bool{}, aliasable: aliasable}
+		canBatch: canBatch, baseN: baseN, flags: map[string]bool{}, aliasable: aliasable, noisy: func(string) bool { return true }, depth: 20}
 }
 
 // step performs one Run on the used model and checks every invariant.
@@ -124,6 +126,12 @@ func (mc *c02Machine) step(rt *rapid.T, label string, feed gonnx.Tensors) {
 		}
 		for _, k := range sortedKeys(fr.outs) {
 			if d := sameBits(rr.outs[k], fr.outs[k]); d != "" {
+				// KF-C02-address-dependent-rounding: gonum's assembly dot-product kernels round
+				// differently depending on the alignment of their operands, so two Runs on equal
+				// inputs held in different tensor objects may differ in the last bits
+				if mc.noisy(k) && approxSame(rr.outs[k], fr.outs[k], 1e-6*float64(mc.depth+1)) == "" && kfAccept("KF-C02-address-dependent-rounding") {
+					continue
+				}
 				fail("output %q of the used model differs from the freshly loaded model: %s", k, d)
 			}
 		}
@@ -285,6 +293,11 @@ func TestC02(t *testing.T) {
 			}
 			return feed
 		}, perSample, gg.batchN, ggAliasable(gg))
+		noisyOut := map[string]bool{}
+		for _, v := range gg.pool {
+			noisyOut[v.name] = v.noisy
+		}
+		mc.noisy, mc.depth = func(k string) bool { return noisyOut[k] }, len(gg.nodes)
 		mc.step(rt, "first", mc.mkFeed(rt, gg.batchN))
 		rt.Repeat(mc.actions(rt))
 		mc.record("generated")
@@ -307,4 +320,28 @@ func TestC02(t *testing.T) {
 		rt.Repeat(mc.actions(rt))
 		mc.record("sample-models")
 	})
+}
+
+func init() {
+	kfRepro["KF-C02-address-dependent-rounding"] = addressDependentRounding
+}
+
+// addressDependentRounding evaluates Tanh -> LinearRegressor (5 features) repeatedly on equal
+// inputs held in freshly allocated tensors; reports whether more than one result occurs.
+func addressDependentRounding() (bool, string) {
+	x := []float32{-0.25, 0.3125, 1, -1.5, 0.5, 0.125, 0.25, 0.375, 0.4375, 0.5, -2, 1.75, 0.0625, -0.5625, 1.25}
+	seen := map[uint64]int{}
+	var keep [][]byte
+	for i := 0; i < 400; i++ {
+		keep = append(keep, make([]byte, 1+i%37))
+		tn := runOp("Tanh", mkNode("Tanh", nil, nil), []tensor.Tensor{mkT([]int{3, 5}, x)})
+		node := mkNode("LinearRegressor", nil, nil, attrFs("coefficients", 0.1875, -0.25, -0.125, 0.1875, -0.5), attrFs("intercepts", 0.125), attrI("targets", 1))
+		r := runOp("LinearRegressor", node, []tensor.Tensor{cloneT(tn.outs[0])})
+		if !r.ok() {
+			return true, r.String()
+		}
+		seen[hashBits(bitsAll(r.outs[0]))]++
+	}
+	_ = keep
+	return len(seen) > 1, fmt.Sprintf("LinearRegressor(5 features) on equal inputs in 400 freshly allocated tensors: %d distinct results", len(seen))
 }
